@@ -35,6 +35,11 @@ SCOPE1 = ('InlineDefinedFuns', '(set-logic ALL)\n(declare-const y Int)\n(define-
 SCOPE2 = ('InlineDefinedFuns', '(set-logic ALL)\n(define-fun c () Int 3)\n(assert (let ((c 5)) (= c 5)))\n(check-sat)\n')
 # |x| and x are one symbol: the formal parameter |x| is not substituted for x in the body
 QUOTED = ('InlineDefinedFuns', '(set-logic ALL)\n(declare-const x Int)\n(define-fun f ((|x| Int)) Int (+ x 1))\n(assert (= x 0))\n(assert (= (f 5) 6))\n(check-sat)\n')
+# comments are leaves of ddSMT's tree: inside a term they must not be taken for operands
+COMMENT1 = ('BoolDoubleNegation', '(set-logic ALL)\n(declare-const a Bool)\n(assert (not (not ; the operand\n a)))\n(check-sat)\n')
+COMMENT2 = ('RemoveDatatypeIdentity', '(set-logic ALL)\n(declare-datatype A ((C ; first\n (s1 Int) (s2 Int))))\n(declare-const a Int)\n(declare-const b Int)\n'
+            '(assert (= (s1 (C a b)) 0))\n(check-sat)\n')
+COMMENT3 = ('BVDoubleNegation', '(set-logic ALL)\n(declare-const v (_ BitVec 4))\n(assert (= v (bvnot (bvnot ; c\n v))))\n(check-sat)\n')
 REBOUND = ('InlineDefinedFuns', '(set-logic ALL)\n(define-fun f ((x Int)) Bool (forall ((x Int)) (>= (* x x) 0)))\n(assert (f (- 5)))\n(check-sat)\n')
 CAPTURE = ('InlineDefinedFuns', '(set-logic ALL)\n(declare-const y Int)\n(define-fun g ((p Int)) Bool (exists ((y Int)) (> y p)))\n(assert (g y))\n(check-sat)\n')
 
@@ -140,7 +145,7 @@ def run(ctx):
     model = common.Model()
     rng = ctx.rng
     per = 40 if ctx.thorough else 7
-    texts = list(EXTRA) + [CAPTURE, REBOUND, SHADOW, SCOPE1, SCOPE2, QUOTED]
+    texts = list(EXTRA) + [CAPTURE, REBOUND, SHADOW, SCOPE1, SCOPE2, QUOTED, COMMENT1, COMMENT2, COMMENT3]
     for cls in IDENTITY:
         for _ in range(per):
             r = instances.make(rng, cls)
